@@ -392,6 +392,9 @@ pub fn cmd_meta_record(args: &[String]) -> i32 {
         if ow["err"] == "panic" || oi["err"] == "panic" {
             continue;
         }
+        if ow["err"] == "Limit" || oi["err"] == "Limit" {
+            continue; // the two programs legitimately execute different numbers of instructions
+        }
         if ow["err"] == "Context" {
             continue; // the expression needs a variable (e.g. the byte-order flag): refused in meta mode by design
         }
